@@ -134,6 +134,13 @@ TView ==
              refs |-> Range(E.refs), final |-> E.final, uptodate |-> E.uptodate]
   /\ FsNop /\ ApiUnch /\ UNCHANGED <<fds, txnRecs>> /\ Step
 
+(* the driver gave up on a handle that kept issuing filesystem calls without ever returning *)
+TStuck ==
+  /\ l <= Len(Ev) /\ E.ev = "stuck"
+  /\ viol' = viol \cup {"C10_CallNeverReturns"}
+  /\ UNCHANGED <<dir, ino, lver, committed, cmarks, lastRead, tabHist>>
+  /\ ApiUnch /\ KeepT /\ Step
+
 TCrash ==
   /\ l <= Len(Ev) /\ E.ev = "crash"
   /\ FsCrash(E.h) /\ FsNop /\ KeepT /\ Step
@@ -142,7 +149,7 @@ TDone == l > Len(Ev) /\ UNCHANGED vars     \* the whole trace was consumed
 
 TNext == \/ TCreateExcl \/ TTempFile \/ TOpenWrite \/ TOpenRead \/ TReadFile \/ TReadDir
          \/ TWrite \/ TClose \/ TRename \/ TRemove
-         \/ TCall \/ TReturn \/ TView \/ TCrash \/ TDone
+         \/ TCall \/ TReturn \/ TView \/ TCrash \/ TStuck \/ TDone
 
 TSpec == TInit /\ [][TNext]_vars
 
@@ -199,6 +206,7 @@ T_C09_Refreshed         == Check("C09_Refreshed", C09_Refreshed)
 T_C10_OneVersion        == Check("C10_OneVersion", C10_OneVersion)
 T_C10_Readable          == Check("C10_Readable", C10_Readable)
 T_C10_Content           == Check("C10_Content", C10_Content)
+T_C10_Terminates        == Check("C10_Terminates", "C10_CallNeverReturns" \notin viol)
 T_C16_IdleOwnsNothing   == Check("C16_IdleOwnsNothing", C16_IdleOwnsNothing)
 T_C16_QuiescentDir      == Check("C16_QuiescentDir", C16_QuiescentDir)
 T_C16_GcSucceeds        == Check("C16_GcSucceeds", C16_GcSucceeds)
@@ -208,6 +216,6 @@ T_C16_GcSucceeds        == Check("C16_GcSucceeds", C16_GcSucceeds)
 (* others): a set enumeration evaluates every element.                       *)
 T_All == {T_C04_NoLostNoPhantom, T_C04_AckIffCommitted, T_C04_OneAtATime, T_C04_OnlyLockFailures, T_C04_FinalView,
           T_C05_ListIntegrity, T_C05_NoGc, T_C06_Atomic, T_C08_OwnerOnly, T_C09_StaleNeverCommits, T_C09_Refreshed,
-          T_C10_OneVersion, T_C10_Readable, T_C10_Content,
+          T_C10_OneVersion, T_C10_Readable, T_C10_Content, T_C10_Terminates,
           T_C16_IdleOwnsNothing, T_C16_QuiescentDir, T_C16_GcSucceeds} = {TRUE}
 =============================================================================
